@@ -50,11 +50,16 @@ HYB = {"cls": "SolverHybrid"}
 HYB_A = {"cls": "SolverHybrid", "q": {"exact": False}, "mode": "contain"}
 HYB_AF = {"cls": "SolverHybrid", "kwargs": {"approximate_first": True}, "mode": "af"}
 VSA = {"cls": "SolverVSA", "mode": "contain"}
+# the real SolverComposite (and the real child mixin stack) over ghost enumeration children: vf/rtc/ghost.py
+GCOMP = {"cls": "SolverComposite", "ghost": True}
+GCHILD = {"cls": "GhostChild", "ghost": True}
 S3 = [{"op": "simplify"}, {"op": "downsize"}, {"op": "branch", "move": True}]
 
 
 def _name(cfg):
     n = cfg["cls"]
+    if cfg.get("ghost"):
+        n += "~ghost-children" if cfg["cls"] != "GhostChild" else "~child-mixins-over-enumeration"
     if cfg.get("reuse"):
         n += "+reuse"
     if cfg.get("kwargs"):
@@ -107,6 +112,11 @@ def tasks(prop, tier="quick", seed=0, known_labels=None):
         lin(COMP, "mix", "C12", shards=2 if quick else 4, extra_templates=extra, **q)
         gen(COMP, "comp", "gen_diamond", "C12", shards=4 if quick else 8, denom=25 if quick else 1)
         gen(COMP, "comp", "gen_split", "C12", shards=2 if quick else 4, denom=10 if quick else 1, gen_kwargs={"maxadds": 3})
+        # composite bookkeeping over ghost children: exhaustive where the real-children runs sample
+        lin(GCOMP, "gh", "C12", shards=16, maxlen=4, body_denom=1, tail_denom=1 if quick else 1, rand_count=0 if quick else 2000, rand_maxlen=40,
+            struct=[{"op": "simplify"}, {"op": "branch", "move": True}])
+        gen(GCOMP, "gh", "gen_cow", "C12", shards=8, denom=2 if quick else 1, gen_kwargs={"maxops": 3, "npre": 2 if quick else 3})
+        gen(GCOMP, "gh", "gen_diamond", "C12", shards=2, denom=4 if quick else 1)
 
     elif prop == "C13":
         q = dict(maxlen=3, body_denom=1, tail_denom=0 if quick else 2, rand_count=0 if quick else 400, rand_maxlen=40, struct=S3)
@@ -133,6 +143,8 @@ def tasks(prop, tier="quick", seed=0, known_labels=None):
                     rand=None if quick else {"count": 300, "maxlen": 30})
         for cfg in (SR, HYB_A):
             gen(cfg, "xy", "gen_tree", "C14", shards=2, denom=3000 if quick else 300)
+        gen(GCOMP, "gh", "gen_cow", "C14", shards=8, denom=2 if quick else 1, gen_kwargs={"maxops": 3, "npre": 2 if quick else 3})
+        gen(GCOMP, "gh", "gen_tree", "C14", shards=4, denom=40 if quick else 4)
 
     elif prop == "C15":
         for cfg in (S, SC, COMP, HYB, REPL):
@@ -140,6 +152,11 @@ def tasks(prop, tier="quick", seed=0, known_labels=None):
                 gen(cfg, fam, "gen_diamond", "C15", shards=1 if quick else 4, denom=70 if quick else 3)
                 gen(cfg, fam, "gen_split", "C15", shards=1 if quick else 4, denom=2 if quick else 1, gen_kwargs={"maxadds": 2 if quick else 3})
                 gen(cfg, fam, "gen_triple", "C15", gen_kwargs={"count": 150 if quick else 3000})
+        gen(GCOMP, "gh", "gen_merge3", "C15", shards=4, denom=1)
+        gen(GCHILD, "gh", "gen_combine3", "C15", shards=4, denom=1)
+        gen(GCOMP, "gh", "gen_triple", "C15", shards=4, gen_kwargs={"count": 1500 if quick else 20000})
+        gen(GCOMP, "gh", "gen_diamond", "C15", shards=2, denom=2 if quick else 1)
+        gen(GCOMP, "gh", "gen_split", "C15", shards=2, denom=1, gen_kwargs={"maxadds": 3})
 
     elif prop == "C16":
         for cfg in ({"cls": "Solver", "kwargs": {"track": True}}, {"cls": "SolverCacheless", "kwargs": {"track": True}},
